@@ -137,6 +137,10 @@ class Flow:
             elif d and d[0] == "tuple" and len(d[1]) == len(ps):
                 for s, x in zip(ps, d[1]):
                     self.bind(s, x, env)
+            elif d and d[0] == "elem" and d[1] and d[1][0] == "tuple" and len(d[1][1]) == len(ps):
+                # for (a, b) in xs.iter().zip(ys.iter()): a is an element of xs, b of ys
+                for s, x in zip(ps, d[1][1]):
+                    self.bind(s, ("elem", x), env)
             elif d and d[0] == "elem" and d[1] and d[1][0] == "enum" and len(ps) == 2:
                 self.bind(ps[0], ("idx", d[1][1]), env)
                 self.bind(ps[1], ("elem", d[1][1]), env)
